@@ -498,9 +498,9 @@ def _around(a, decimals=0, out=None):
         raise Unmodelled("np.around of symbolic values to fewer than 6 decimals")
 
     def f(x):
-        if is_sym(x):
-            return x  # identity on symbolic values (perturbation <= 0.5*10^-decimals, outside claims)
-        if isinstance(x, Fraction):
+        # rounding to >= 6 decimals is modelled as the identity on EVERY value of an array that is handled by the facade
+        # (rounding some entries and not others creates spurious near-ties); perturbation <= 0.5*10^-decimals, outside claims
+        if is_sym(x) or isinstance(x, Fraction) or decimals >= 6:
             return x
         return round(x, decimals)
     return elementwise(f, a)
